@@ -50,6 +50,11 @@ func (o Op) id() string {
 		default:
 			return "status:valid"
 		}
+	case "purge":
+		if o.Purge != nil && o.Purge.Attest {
+			return "metrix:attested"
+		}
+		return "metrix:purge"
 	}
 	return o.Kind
 }
@@ -180,7 +185,9 @@ func (w *world) extraReads(op Op) {
 		cctx, _ := w.pctx.CacheContext()
 		w.pctx = cctx
 		defer func() { w.pctx = saved }()
-		w.apply(op) // never written back
+		if op.Kind == "status" {
+			w.apply(op) // never written back
+		}
 	}()
 	w.x.extraReads(op)
 }
